@@ -131,6 +131,10 @@ impl<'tx> Tx<'tx> {
                 }
                 vpoint!("tx:released", tx_id = meta.tx_id, nreaders = open_ro_txs.len());
             } else {
+                // Pick the snapshot while holding the registry lock. With a meta page read
+                // earlier, writers could commit in between without seeing this reader and
+                // hand the pages of its snapshot out again.
+                meta = db.inner.meta()?;
                 open_ro_txs.push(meta.tx_id);
                 open_ro_txs.sort_unstable();
                 vpoint!("tx:registered", tx_id = meta.tx_id, nreaders = open_ro_txs.len());
